@@ -36,37 +36,99 @@ g_zeroize!(tdes_eee3_zeroize, TdesEee3, generic::always, generic::none);
 //@ harness name=tdes_eee2_zeroize prop=C16 tier=quick bits=2048 variants=des+zeroize desc="drop of an arbitrary-state TdesEee2 leaves every byte of its storage zero"
 g_zeroize!(tdes_eee2_zeroize, TdesEee2, generic::always, generic::none);
 
-// The cipher function f is uninterpreted in the TDES frame / blocks harnesses (routing and state immutability do not
-// depend on what f computes; f itself is decided on all inputs by c05::des_leaf_round).  Des keeps the real f.
+// Abstractions used by the routing / state-immutability harnesses below (what the cipher computes is not their subject;
+// it is decided by c05.rs):
+//  * Des blocks harnesses: the cipher function f is an uninterpreted function (real IP/FP/rounds);
+//  * TDES harnesses: single DES (Des::encrypt / Des::decrypt) is an uninterpreted function KEYED by the whole subkey array
+//    of the instance it is called on (a few dozen logged calls instead of several hundred f calls).
 fn conc_f(r: u64, k: u64) -> u64 {
     (refmodels::des::f((r >> 32) as u32, k >> 16) as u64) << 32
 }
-uf2!(xf, u64, u64, u64, [B0 B1 B2 B3 B4 B5 B6 B7], conc_f);
+uf2!(xf, u64, u64, u64, [B0 B1 B2], conc_f);
 pub fn stub_xf(input: u64, key: u64) -> u64 {
     xf::call(input & 0xFFFF_FFFF_0000_0000, key) & 0xFFFF_FFFF_0000_0000
 }
 
+#[cfg(kani)]
+mod kd {
+    // entry j: direction D[j] (0 = encrypt, 1 = decrypt) under subkey array K[j] maps X[j] to Y[j]
+    pub static mut K: [[u64; 16]; 64] = [[0; 16]; 64];
+    pub static mut D: [u8; 64] = [0; 64];
+    pub static mut X: [u64; 64] = [0; 64];
+    pub static mut Y: [u64; 64] = [0; 64];
+    pub static mut N: usize = 0;
+}
+#[cfg(kani)]
+fn kd_call(dir: u8, keys: &[u64; 16], x: u64) -> u64 {
+    unsafe {
+        let y: u64 = kani::any();
+        let n = kd::N;
+        kani::assert(n < 64, "VERIF_UF_CAPACITY");
+        let (ks, ds, xs, ys) = (kd::K, kd::D, kd::X, kd::Y);
+        let mut ok = true;
+        let mut j = 0;
+        while j < n {
+            let mut same = ds[j] == dir && xs[j] == x;
+            let mut w = 0;
+            while w < 16 {
+                same &= ks[j][w] == keys[w];
+                w += 1;
+            }
+            ok &= !same | (ys[j] == y);
+            j += 1;
+        }
+        kani::assume(ok);
+        kd::K[n] = *keys;
+        kd::D[n] = dir;
+        kd::X[n] = x;
+        kd::Y[n] = y;
+        kd::N = n + 1;
+        y
+    }
+}
+fn kd_native(d: &Des, x: u64, decrypt: bool) -> u64 {
+    let mut ks = [0u64; 16];
+    let mut i = 0;
+    while i < 16 {
+        ks[i] = d.keys[i] >> 16;
+        i += 1;
+    }
+    refmodels::des::crypt_with(x, &ks, decrypt, refmodels::des::f)
+}
+pub fn stub_kd_enc(d: &Des, x: u64) -> u64 {
+    #[cfg(kani)]
+    return kd_call(0, &d.keys, x);
+    #[cfg(not(kani))]
+    return kd_native(d, x, false);
+}
+pub fn stub_kd_dec(d: &Des, x: u64) -> u64 {
+    #[cfg(kani)]
+    return kd_call(1, &d.keys, x);
+    #[cfg(not(kani))]
+    return kd_native(d, x, true);
+}
+
 //@ harness name=des_frame prop=C15,C20 tier=quick bits=1088 est=130 desc="encrypt_block/decrypt_block on an arbitrary Des state and block return (no panic/overflow) and leave the instance bytes unchanged; nothing abstracted"
 g_frame!(des_frame, Des, 8, generic::always);
-//@ harness name=tdes_ede3_frame prop=C15,C20 tier=quick bits=3136 stub=1 desc="encrypt/decrypt on an arbitrary TdesEde3 state: total, instance unchanged (f uninterpreted)"
-g_frame!(tdes_ede3_frame, TdesEde3, 8, generic::always, stubs: [(crate::utils::f, stub_xf)]);
-//@ harness name=tdes_ede2_frame prop=C15,C20 tier=quick bits=2112 stub=1 desc="encrypt/decrypt on an arbitrary TdesEde2 state: total, instance unchanged (f uninterpreted)"
-g_frame!(tdes_ede2_frame, TdesEde2, 8, generic::always, stubs: [(crate::utils::f, stub_xf)]);
-//@ harness name=tdes_eee3_frame prop=C15,C20 tier=quick bits=3136 stub=1 desc="encrypt/decrypt on an arbitrary TdesEee3 state: total, instance unchanged (f uninterpreted)"
-g_frame!(tdes_eee3_frame, TdesEee3, 8, generic::always, stubs: [(crate::utils::f, stub_xf)]);
-//@ harness name=tdes_eee2_frame prop=C15,C20 tier=quick bits=2112 stub=1 desc="encrypt/decrypt on an arbitrary TdesEee2 state: total, instance unchanged (f uninterpreted)"
-g_frame!(tdes_eee2_frame, TdesEee2, 8, generic::always, stubs: [(crate::utils::f, stub_xf)]);
+//@ harness name=tdes_ede3_frame prop=C15,C20 tier=quick bits=3136 stub=1 desc="encrypt/decrypt on an arbitrary TdesEde3 state: total, instance unchanged (single DES uninterpreted, keyed by the subkey array)"
+g_frame!(tdes_ede3_frame, TdesEde3, 8, generic::always, stubs: [(crate::des::Des::encrypt, stub_kd_enc), (crate::des::Des::decrypt, stub_kd_dec)]);
+//@ harness name=tdes_ede2_frame prop=C15,C20 tier=quick bits=2112 stub=1 desc="encrypt/decrypt on an arbitrary TdesEde2 state: total, instance unchanged (single DES uninterpreted, keyed by the subkey array)"
+g_frame!(tdes_ede2_frame, TdesEde2, 8, generic::always, stubs: [(crate::des::Des::encrypt, stub_kd_enc), (crate::des::Des::decrypt, stub_kd_dec)]);
+//@ harness name=tdes_eee3_frame prop=C15,C20 tier=quick bits=3136 stub=1 desc="encrypt/decrypt on an arbitrary TdesEee3 state: total, instance unchanged (single DES uninterpreted, keyed by the subkey array)"
+g_frame!(tdes_eee3_frame, TdesEee3, 8, generic::always, stubs: [(crate::des::Des::encrypt, stub_kd_enc), (crate::des::Des::decrypt, stub_kd_dec)]);
+//@ harness name=tdes_eee2_frame prop=C15,C20 tier=quick bits=2112 stub=1 desc="encrypt/decrypt on an arbitrary TdesEee2 state: total, instance unchanged (single DES uninterpreted, keyed by the subkey array)"
+g_frame!(tdes_eee2_frame, TdesEee2, 8, generic::always, stubs: [(crate::des::Des::encrypt, stub_kd_enc), (crate::des::Des::decrypt, stub_kd_dec)]);
 
 // C15: mixed-direction history on one instance and construction history (see generic.rs)
 //@ harness name=des_mixed prop=C15,C20 tier=quick bits=1152 est=300 desc="Des: on one arbitrary-state instance the history enc(x); dec(x); dec(y); enc(y) returns for dec(x) and enc(y) what a pristine instance with the same state returns; instance bytes unchanged; nothing abstracted"
 g_mixed!(des_mixed, Des, 8, generic::always);
 //@ harness name=tdes_ede3_mixed prop=C15,C20 tier=quick bits=3200 stub=1 desc="TdesEde3: mixed-direction history enc(x); dec(x); dec(y); enc(y) agrees with a pristine instance; instance bytes unchanged (f uninterpreted)"
-g_mixed!(tdes_ede3_mixed, TdesEde3, 8, generic::always, stubs: [(crate::utils::f, stub_xf)]);
+g_mixed!(tdes_ede3_mixed, TdesEde3, 8, generic::always, stubs: [(crate::des::Des::encrypt, stub_kd_enc), (crate::des::Des::decrypt, stub_kd_dec)]);
 //@ harness name=tdes_eee2_mixed prop=C15,C20 tier=quick bits=2176 stub=1 desc="TdesEee2: mixed-direction history agrees with a pristine instance; instance bytes unchanged (f uninterpreted)"
-g_mixed!(tdes_eee2_mixed, TdesEee2, 8, generic::always, stubs: [(crate::utils::f, stub_xf)]);
-//@ harness name=des_ctor_history prop=C15 tier=quick bits=128 est=200 desc="Des: new(k2) in a fresh process, then new(k1), then new(k2) again gives the same subkeys as the first time, all keys k1, k2"
+g_mixed!(tdes_eee2_mixed, TdesEee2, 8, generic::always, stubs: [(crate::des::Des::encrypt, stub_kd_enc), (crate::des::Des::decrypt, stub_kd_dec)]);
+//@ harness name=des_ctor_history prop=C15 tier=quick bits=192 est=300 desc="Des: history new(k2) in a fresh process, new(k1), new(k2), new(k3), new(k1): both constructions from k2 give the same subkeys and both from k1 do, all keys k1, k2, k3"
 g_ctor_history!(des_ctor_history, Des, 8, generic::none);
-//@ harness name=tdes_ede3_ctor_history prop=C15 tier=thorough bits=384 est=900 mem=24 desc="TdesEde3: construction history new(k2); new(k1); new(k2) gives the same state, all keys"
+//@ harness name=tdes_ede3_ctor_history prop=C15 tier=thorough bits=576 est=1500 mem=24 desc="TdesEde3: construction history new(k2); new(k1); new(k2); new(k3); new(k1) gives the same state for equal keys, all keys"
 g_ctor_history!(tdes_ede3_ctor_history, TdesEde3, 24, generic::none);
 
 // C04: every block count n = 0, 1, 2 (enumerated), all block contents and all states symbolic; one harness per direction.
@@ -75,18 +137,18 @@ g_blocks1!(des_blocks_enc, Des, 8, 2, generic::always, enc, stubs: [(crate::util
 //@ harness name=des_blocks_dec prop=C04,C20 tier=quick bits=1152 stub=1 desc="Des decrypt: same as des_blocks_enc"
 g_blocks1!(des_blocks_dec, Des, 8, 2, generic::always, dec, stubs: [(crate::utils::f, stub_xf)]);
 //@ harness name=tdes_ede3_blocks_enc prop=C04,C20 tier=quick bits=3200 stub=1 desc="TdesEde3 encrypt: multi-block / b2b calls equal per-block calls (n = 0,1,2); arbitrary state (f uninterpreted)"
-g_blocks1!(tdes_ede3_blocks_enc, TdesEde3, 8, 2, generic::always, enc, stubs: [(crate::utils::f, stub_xf)]);
+g_blocks1!(tdes_ede3_blocks_enc, TdesEde3, 8, 2, generic::always, enc, stubs: [(crate::des::Des::encrypt, stub_kd_enc), (crate::des::Des::decrypt, stub_kd_dec)]);
 //@ harness name=tdes_ede3_blocks_dec prop=C04,C20 tier=quick bits=3200 stub=1 desc="TdesEde3 decrypt: multi-block / b2b calls equal per-block calls (n = 0,1,2); arbitrary state (f uninterpreted)"
-g_blocks1!(tdes_ede3_blocks_dec, TdesEde3, 8, 2, generic::always, dec, stubs: [(crate::utils::f, stub_xf)]);
+g_blocks1!(tdes_ede3_blocks_dec, TdesEde3, 8, 2, generic::always, dec, stubs: [(crate::des::Des::encrypt, stub_kd_enc), (crate::des::Des::decrypt, stub_kd_dec)]);
 //@ harness name=tdes_ede2_blocks_enc prop=C04,C20 tier=quick bits=2176 stub=1 desc="TdesEde2 encrypt: multi-block / b2b calls equal per-block calls; arbitrary state (f uninterpreted)"
-g_blocks1!(tdes_ede2_blocks_enc, TdesEde2, 8, 2, generic::always, enc, stubs: [(crate::utils::f, stub_xf)]);
+g_blocks1!(tdes_ede2_blocks_enc, TdesEde2, 8, 2, generic::always, enc, stubs: [(crate::des::Des::encrypt, stub_kd_enc), (crate::des::Des::decrypt, stub_kd_dec)]);
 //@ harness name=tdes_ede2_blocks_dec prop=C04,C20 tier=quick bits=2176 stub=1 desc="TdesEde2 decrypt: multi-block / b2b calls equal per-block calls; arbitrary state (f uninterpreted)"
-g_blocks1!(tdes_ede2_blocks_dec, TdesEde2, 8, 2, generic::always, dec, stubs: [(crate::utils::f, stub_xf)]);
+g_blocks1!(tdes_ede2_blocks_dec, TdesEde2, 8, 2, generic::always, dec, stubs: [(crate::des::Des::encrypt, stub_kd_enc), (crate::des::Des::decrypt, stub_kd_dec)]);
 //@ harness name=tdes_eee3_blocks_enc prop=C04,C20 tier=quick bits=3200 stub=1 desc="TdesEee3 encrypt: multi-block / b2b calls equal per-block calls; arbitrary state (f uninterpreted)"
-g_blocks1!(tdes_eee3_blocks_enc, TdesEee3, 8, 2, generic::always, enc, stubs: [(crate::utils::f, stub_xf)]);
+g_blocks1!(tdes_eee3_blocks_enc, TdesEee3, 8, 2, generic::always, enc, stubs: [(crate::des::Des::encrypt, stub_kd_enc), (crate::des::Des::decrypt, stub_kd_dec)]);
 //@ harness name=tdes_eee3_blocks_dec prop=C04,C20 tier=quick bits=3200 stub=1 desc="TdesEee3 decrypt: multi-block / b2b calls equal per-block calls; arbitrary state (f uninterpreted)"
-g_blocks1!(tdes_eee3_blocks_dec, TdesEee3, 8, 2, generic::always, dec, stubs: [(crate::utils::f, stub_xf)]);
+g_blocks1!(tdes_eee3_blocks_dec, TdesEee3, 8, 2, generic::always, dec, stubs: [(crate::des::Des::encrypt, stub_kd_enc), (crate::des::Des::decrypt, stub_kd_dec)]);
 //@ harness name=tdes_eee2_blocks_enc prop=C04,C20 tier=quick bits=2176 stub=1 desc="TdesEee2 encrypt: multi-block / b2b calls equal per-block calls; arbitrary state (f uninterpreted)"
-g_blocks1!(tdes_eee2_blocks_enc, TdesEee2, 8, 2, generic::always, enc, stubs: [(crate::utils::f, stub_xf)]);
+g_blocks1!(tdes_eee2_blocks_enc, TdesEee2, 8, 2, generic::always, enc, stubs: [(crate::des::Des::encrypt, stub_kd_enc), (crate::des::Des::decrypt, stub_kd_dec)]);
 //@ harness name=tdes_eee2_blocks_dec prop=C04,C20 tier=quick bits=2176 stub=1 desc="TdesEee2 decrypt: multi-block / b2b calls equal per-block calls; arbitrary state (f uninterpreted)"
-g_blocks1!(tdes_eee2_blocks_dec, TdesEee2, 8, 2, generic::always, dec, stubs: [(crate::utils::f, stub_xf)]);
+g_blocks1!(tdes_eee2_blocks_dec, TdesEee2, 8, 2, generic::always, dec, stubs: [(crate::des::Des::encrypt, stub_kd_enc), (crate::des::Des::decrypt, stub_kd_dec)]);
